@@ -2,7 +2,7 @@
 # usage: seedrun.sh <seeded-name> [property] [tier]  -- applies the seeded patch to /repo, runs the check, undoes it
 name=$1; pid=${2:-${name%%-*}}; tier=${3:-quick}
 cd /verif
-git -C /repo apply seeded/$name/patch.diff || { echo "patch does not apply"; exit 3; }
+git -C /repo apply /verif/seeded/$name/patch.diff || { echo "patch does not apply"; exit 3; }
 ./check $pid --tier $tier > /tmp/seedrun_$name.out 2>&1; code=$?
 git -C /repo checkout -- .
 grep -E "^(VIOLATION|INCONCLUSIVE|PASS|FAIL|KNOWN)" /tmp/seedrun_$name.out | cut -c1-300 | head -8
